@@ -1023,7 +1023,14 @@ class BaseMatcher:
                         edge_o = Segment(f"O{obs_idx}", obs, f"O{obs_idx+1}", obs_next)
                         m_next = m.next(edge_m, edge_o, obs=obs_idx, obs_ne=nb_ne)
                         if m_next is not None:
-                            if m_next.key in cur_lattice_new:
+                            if m_next.stop:
+                                # Stopped matches only exist when debugging, they are kept for
+                                # inspection but should not influence the search.
+                                if m_next.key in cur_lattice_new:
+                                    cur_lattice_new[m_next.key].update(m_next)
+                                else:
+                                    cur_lattice_new[m_next.key] = m_next
+                            elif m_next.key in cur_lattice_new and not cur_lattice_new[m_next.key].stop:
                                 cur_lattice_new[m_next.key].update(m_next)
                             else:
                                 if m_next.shortkey in lattice_best:
@@ -1077,7 +1084,10 @@ class BaseMatcher:
                         edge_o = Segment(f"O{obs_idx+1}", obs_next)
                         m_next = m.next(edge_m, edge_o, obs=obs_idx)
                         if m_next is not None:
-                            if m_next.shortkey in lattice_best:
+                            if m_next.stop:
+                                # Only when debugging: keep for inspection, do not use as best match
+                                self.lattice[obs_idx].upsert(m_next)
+                            elif m_next.shortkey in lattice_best:
                                 # if m_next.dist_obs < lattice_best[m_next.shortkey].dist_obs:
                                 if m_next.logprob > lattice_best[m_next.shortkey].logprob:
                                     lattice_best[m_next.shortkey] = m_next
@@ -1121,7 +1131,10 @@ class BaseMatcher:
                         edge_o = Segment(f"O{obs_idx+1}", obs_next)
                         m_next = m.next(edge_m, edge_o, obs=obs_idx)
                         if m_next is not None:
-                            if m_next.shortkey in lattice_best:
+                            if m_next.stop:
+                                # Only when debugging: keep for inspection, do not use as best match
+                                self.lattice[obs_idx].upsert(m_next)
+                            elif m_next.shortkey in lattice_best:
                                 # if m_next.dist_obs < lattice_best[m_next.shortkey].dist_obs:
                                 if m_next.logprob > lattice_best[m_next.shortkey].logprob:
                                     lattice_best[m_next.shortkey] = m_next
